@@ -287,8 +287,13 @@ def lookup_check(p, name, table, expect_found=None, as_tuples=False):
     if len(c.inputs) != n or len(c.outputs) != len(table):
         bad = "shape"
     else:
-        tt = c.get_truth_table()
-        if [list(r) for r in tt] != [list(r) for r in table]:
+        try:
+            tt = c.get_truth_table()
+        except Exception as e:  # noqa: BLE001
+            tt, bad = None, f"unevaluable:{type(e).__name__}"
+        if bad:
+            pass
+        elif [list(r) for r in tt] != [list(r) for r in table]:
             bad = "function"
         elif {g.gate_type.name for g in c.gates.values()} - BASIS[name]:
             bad = "basis"
@@ -296,7 +301,9 @@ def lookup_check(p, name, table, expect_found=None, as_tuples=False):
             bad = "well-formedness"
     if bad:
         p.violation(f"lookup:{name}:{bad}", f"look-up of {table} returned {circ.describe(c)} ({bad})",
-                    src + "bad = c is None or [list(r) for r in c.get_truth_table()]!=[list(r) for r in T] or bool(circ.wf_problems(c))\nsys.exit(1 if bad else 0)\n")
+                    src + "try:\n    bad = c is None or [list(r) for r in c.get_truth_table()]!=[list(r) for r in T] or bool(circ.wf_problems(c))\n"
+                    "except Exception as e:\n    print(type(e).__name__, e); bad=True\nsys.exit(1 if bad else 0)\n")
+        return None
     return c
 
 
